@@ -11,7 +11,24 @@ from ..astq import assignments_to, call_name, names_in, occ, stmt_of, in_subtree
 from ..model import AnalysisError, Func, ancestors, const_value, NOCONST, first_line, is_self_attr, norm, walk_local
 from ..report import Ob, rule
 
-UNIVERSE = ["NoneType", "bool", "int", "float", "str", "bytes", "list", "dict", "tuple", "datetime"]
+BASE_TYPES = ["NoneType", "bool", "int", "float", "str", "bytes", "list", "dict", "tuple", "datetime"]
+# every type with a truthy and (where one exists) a falsy representative: "int" = 5, "int!" = 0, "str!" = "" ...
+UNIVERSE = [t for t in BASE_TYPES if t != "NoneType"] + ["NoneType"] + [
+    t + "!" for t in BASE_TYPES if t not in ("NoneType", "datetime")]
+
+
+def _base(t: str) -> str:
+    return t.rstrip("!")
+
+
+def expand(types) -> set:
+    """{int, float} -> {int, int!, float, float!} (a documented type set admits all its values)."""
+    out = set()
+    for t in types:
+        out.add(t)
+        if t + "!" in UNIVERSE:
+            out.add(t + "!")
+    return out
 SUPER = {
     "bool": {"bool", "int", "object"}, "int": {"int", "object"}, "float": {"float", "object"},
     "str": {"str", "object", "Sequence", "Iterable"}, "bytes": {"bytes", "object", "Sequence", "Iterable"},
@@ -40,7 +57,7 @@ def teval(e: ast.AST, env: Dict[str, str]) -> bool:
         t = e.args[1]
         names = [norm(x) for x in (t.elts if isinstance(t, ast.Tuple) else [t])]
         names = [n.split(".")[-1] for n in names]
-        return bool(SUPER[env[v]] & set(names))
+        return bool(SUPER[_base(env[v])] & set(names))
     if isinstance(e, ast.Call) and isinstance(e.func, ast.Name) and e.func.id == "callable" and len(e.args) == 1:
         if norm(e.args[0]) in env:
             return False
@@ -50,13 +67,14 @@ def teval(e: ast.AST, env: Dict[str, str]) -> bool:
         v = norm(e.left)
         if v not in env:
             raise Unknown(norm(e))
-        r = env[v] == "NoneType"
+        r = _base(env[v]) == "NoneType"
         return r if isinstance(e.ops[0], ast.Is) else not r
     if isinstance(e, ast.Compare) and len(e.ops) == 1 and isinstance(e.ops[0], ast.In) \
             and isinstance(e.left, ast.Constant):
         return True  # '"time" in kwargs' -- the slot is supplied
     if norm(e) in env:
-        return env[norm(e)] != "NoneType"  # truthiness of a supplied value (non-empty assumed)
+        t_ = env[norm(e)]
+        return t_ != "NoneType" and not t_.endswith("!")  # truthiness of the representative value
     raise Unknown(norm(e))
 
 
@@ -103,6 +121,14 @@ def element_checks(f: Func, mapping: str) -> Dict[str, Set[str]]:
                     src = norm(gen.iter)
                     v = gen.target.id
                     accepted = {ty for ty in UNIVERSE if teval(ge.elt, {v: ty})}
+            elif isinstance(t, ast.Call) and isinstance(t.func, ast.Name) and t.func.id == "any" and t.args \
+                    and isinstance(t.args[0], (ast.GeneratorExp, ast.ListComp)):
+                ge = t.args[0]
+                gen = ge.generators[0]
+                if isinstance(gen.target, ast.Name) and not gen.ifs:
+                    src = norm(gen.iter)
+                    v = gen.target.id
+                    accepted = {ty for ty in UNIVERSE if not teval(ge.elt, {v: ty})}
         elif isinstance(n, ast.For) and isinstance(n.target, ast.Name) and any(
                 isinstance(x, ast.Raise) for x in walk_local(n)):
             src = norm(n.iter)
@@ -145,7 +171,7 @@ def validators_accept_exactly(ctx):
                  "non-mappings are rejected" if mt else "no `not isinstance(x, Mapping) -> raise` test", f.loc())
         for kind in ("keys", "values"):
             g = got.get(kind)
-            ok = g == exp[kind]
+            ok = g == expand(exp[kind])
             yield Ob("C14.R2", ["C14"], f"{name} | accepted {kind[:-1]} types", ok,
                      f"accepts exactly {sorted(exp[kind])}" if ok else
                      (f"accepts {sorted(g)}, documented {sorted(exp[kind])}" if g is not None else
@@ -160,7 +186,7 @@ def validators_accept_exactly(ctx):
             acc = accepted_by_stmts(st.body, v)
         except Unknown as ex:
             raise AnalysisError("C14.R2", f"Point.{slot} setter: {ex}")
-        ok = acc == {typ}
+        ok = acc == expand({typ})
         yield Ob("C14.R2", ["C14"], f"{st.qual} | accepted types", ok,
                  f"accepts exactly {{{typ}}}" if ok else f"accepts {sorted(acc)}, documented {{{typ}}}", st.loc())
     # constructor keyword validation
@@ -174,7 +200,7 @@ def validators_accept_exactly(ctx):
                     acc = {t for t in UNIVERSE if not teval(n.test, {f"kwargs['{slot}']": t})}
                 except Unknown as ex:
                     raise AnalysisError("C14.R2", f"_validate_kwargs {slot}: {ex}")
-        ok = acc == {typ}
+        ok = acc == expand({typ})
         yield Ob("C14.R2", ["C14"], f"{vk.qual} | {slot} keyword accepted types", ok,
                  f"accepts exactly {{{typ}}}" if ok else f"accepts {sorted(acc) if acc is not None else None}, documented {{{typ}}}",
                  vk.loc())
